@@ -1074,3 +1074,7 @@ TABLE["C15"] += [
     B("preamble-ignore-key-from-the-template-name", {"X1"},
       (MW, "            uninstantiated_name = \"::\".join(cls.namespaces()[1:] + [cls.name])", "            uninstantiated_name = \"::\".join(cls.namespaces()[1:] + [cls.original.name])")),
 ]
+TABLE["C14"] += [
+    B("main-module-file-opened-for-update", {"R6"},
+      (PW, "        with open(main_module_name, \"w\", encoding=\"UTF-8\") as f:", "        with open(main_module_name, \"r+\", encoding=\"UTF-8\") as f:")),
+]
